@@ -7,7 +7,7 @@ from trie.fog import HexaryTrieFog, TrieFrontierCache
 from trie.exceptions import (PerfectVisibility, FullDirectionalVisibility, MissingTraversalNode, TraversedPartialPath)
 
 ID = "C09"
-LEAN_IMPORTS = ["PyTrie.Props.C09"]
+LEAN_IMPORTS = ["PyTrie.Props.C09", "PyTrie.Props.NonVacuity"]
 THEOREMS = [
     "PyTrie.Props.C09.step_defined",
     "PyTrie.Props.C09.finds_stable",
@@ -16,6 +16,13 @@ THEOREMS = [
     "PyTrie.Props.C09.exact",
     "PyTrie.Props.C09.step_decreases",
     "PyTrie.Props.C09.measure_start",
+    "PyTrie.Props.C09.concrete_step",
+    "PyTrie.Props.C09.concrete_finds_stable",
+    "PyTrie.Props.C09.concrete_sound",
+    "PyTrie.Props.NonVacuity.walk_finds",
+    "PyTrie.Props.NonVacuity.sched_done",
+    "PyTrie.Props.NonVacuity.fog_wf",
+    "PyTrie.Props.NonVacuity.walkMid_wf",
 ]
 RULE = ("walks over tries built by generated histories: at every step an unexplored prefix is taken with nearest_unknown or "
         "nearest_right for a (changing) query key, traversed from the root or from a TrieFrontierCache entry (stale entries "
@@ -65,6 +72,7 @@ def run_case(case):
     use_cache = case["cache"] != "off"
     cache = TrieFrontierCache()
     res.emit("fog.cnew", "ok")
+    res.emit("hx.wnew", "ok")
     regs = {}           # id(node object) -> model register
     met = {}
     nsteps = 0
@@ -107,11 +115,13 @@ def run_case(case):
                 res.tags.add("simulated-node-used")
             except MissingTraversalNode as e:
                 res.emit(line, hexlib.fmt_exc(e))
+                res.emit("hx.wstep 0 %s %d" % (nibstr(p), 1 if use_cache else 0), hexlib.fmt_exc(e))
                 if cached is None:
                     res.fail("walk-missing-node", "traverse(%s) from the root raised %r on a complete database" % (nibstr(p), e))
                     return False
                 cache.delete(p)
                 res.emit("fog.cdel %s" % nibstr(p), "ok")
+                res.emit("hx.wcdel %s" % nibstr(p), "ok")
                 res.tags.add("stale-cache-entry-dropped")
                 continue
             break
@@ -139,9 +149,14 @@ def run_case(case):
             else:
                 cache.delete(p)
                 res.emit("fog.cdel %s" % nibstr(p), "ok")
+        newmet = "-"
         if node.value:
             k = p + tuple(node.suffix)
             met[k] = bytes(node.value)
+            newmet = "%s=%s" % (nibstr(k), hx(bytes(node.value)))
+        # the whole step as one transition of the concrete walk model (Model/Walk.lean: cstep)
+        res.emit("hx.wstep 0 %s %d" % (nibstr(p), 1 if use_cache else 0),
+                 "fog %s met %s" % (plist([tuple(q) for q in fog._unexplored_prefixes]), newmet))
         nsteps += 1
         return True
 
@@ -158,6 +173,7 @@ def run_case(case):
         if case["cache"] == "reset" and step_no == case["reset_at"]:
             cache = TrieFrontierCache()
             res.emit("fog.cnew", "ok")
+            res.emit("hx.wcnew", "ok")
         if not walk_step(item[1], item[2]):
             done = True
             break
